@@ -493,8 +493,20 @@ pub fn cmd_run(prop: &str, tier: Tier) -> i32 {
             println!("VIOLATION property=C03 replay={}", path);
             std::process::exit(1);
         } else {
-            eprintln!("HARNESS-ERROR: a run hung (wall-clock watchdog); scenario written to {} — this is C03 territory", path);
-            std::process::exit(2);
+            // judge what the run had recorded before it hung by this property's safety clauses: in a
+            // fresh process (the replay command does exactly that)
+            let out = std::env::current_exe().ok().and_then(|exe| std::process::Command::new(exe).arg("replay").arg(prop_s).arg(&path).output().ok());
+            match out {
+                Some(o) => {
+                    print!("{}", String::from_utf8_lossy(&o.stdout));
+                    eprint!("{}", String::from_utf8_lossy(&o.stderr));
+                    std::process::exit(o.status.code().unwrap_or(2));
+                }
+                None => {
+                    eprintln!("HARNESS-ERROR: a run hung (wall-clock watchdog); scenario written to {} — this is C03 territory", path);
+                    std::process::exit(2);
+                }
+            }
         }
     });
     for job in &jobs {
@@ -588,7 +600,42 @@ pub fn cmd_replay(prop: &str, path: &str, trace: bool) -> i32 {
         }
     };
     let ctx = Ctx::new(1);
-    let rec = runner::run_one(&ctx, &sc);
+    let rec = match run_guarded(&sc) {
+        Ok(r) => r,
+        Err(partials) => {
+            // the run does not return: a spin (C03). Under another property the history recorded up
+            // to the hang is judged by that property's safety clauses.
+            let mut code = 2;
+            if check.prop == "C03" {
+                println!("VIOLATION property=C03 replay={}", path);
+                println!("  signature C03/spin/run_does_not_return");
+                println!("  the run exceeded the wall-clock watchdog without touching a seam ({} events recorded)", partials.first().map(|r| r.events.len()).unwrap_or(0));
+                code = 1;
+            } else {
+                let allowed = checks::safety_clauses(check.prop);
+                for rec in &partials {
+                    if trace {
+                        for l in analysis::render(rec, 5000) {
+                            println!("{}", l);
+                        }
+                    }
+                    let a = Analysis::new(rec);
+                    for v in (check.oracle)(&a).iter().filter(|v| allowed.contains(&v.clause)) {
+                        println!("VIOLATION property={} replay={}", check.prop, path);
+                        println!("  signature {} (judged on the history up to the point where the run stopped making progress)", signature(v, &sc, rec));
+                        println!("  {}", v.detail);
+                        code = 1;
+                    }
+                }
+                if code == 2 {
+                    eprintln!("HARNESS-ERROR: the run hangs (wall-clock watchdog) and the history up to the hang breaks no safety clause of {}; a hang is C03 territory: ./check C03 --replay {}", check.prop, path);
+                }
+            }
+            ctx.cleanup();
+            // the spinning thread cannot be stopped: leave with the process
+            std::process::exit(code);
+        }
+    };
     if trace {
         for l in analysis::render(&rec, 5000) {
             println!("{}", l);
@@ -617,6 +664,37 @@ pub fn cmd_replay(prop: &str, path: &str, trace: bool) -> i32 {
     }
     ctx.cleanup();
     code
+}
+
+/// run one scenario on a thread of its own and give up waiting when it makes no progress for twice
+/// the watchdog time (stalls of the whole process are not counted): Err = what the run had
+/// recorded so far
+fn run_guarded(sc: &Scenario) -> Result<crate::world::RunRecord, Vec<crate::world::RunRecord>> {
+    let (tx, rx) = std::sync::mpsc::channel();
+    let sc2 = sc.clone();
+    std::thread::spawn(move || {
+        let ctx = Ctx::new(1);
+        let rec = runner::run_one(&ctx, &sc2);
+        let _ = tx.send(rec);
+    });
+    let now_ms = || std::time::SystemTime::now().duration_since(std::time::UNIX_EPOCH).map(|d| d.as_millis() as u64).unwrap_or(0);
+    let (mut waited, mut last) = (0u64, now_ms());
+    loop {
+        match rx.recv_timeout(std::time::Duration::from_millis(200)) {
+            Ok(rec) => return Ok(rec),
+            Err(std::sync::mpsc::RecvTimeoutError::Timeout) => {}
+            Err(std::sync::mpsc::RecvTimeoutError::Disconnected) => return Err(vec![]),
+        }
+        let now = now_ms();
+        let dt = now.saturating_sub(last);
+        last = now;
+        if dt <= 700 {
+            waited += dt;
+        }
+        if waited > 2 * runner::WATCHDOG_MS {
+            return Err(crate::world::partial_records());
+        }
+    }
 }
 
 /// determinism self-test: print one digest line per scenario; the caller runs this in two fresh
